@@ -953,6 +953,6 @@ META = dict(
         "and header tag tables agree with the writer; notes are timed by the un-reseated timing map and the tempo list "
         "comes from the reseated one built from the same inputs starting at the #OFFSET field; every chart token is "
         "returned; and a None placeholder of the metadata reader must not reach a dereference (interprocedural "
-        "None-flow). The position -> ms table the expanders look up (with .get, so a missing key is a silent None) is fed from every per-kind buffer that is later expanded (R10)."),
+        "None-flow). The position -> ms table the expanders look up (with .get, so a missing key is a silent None) is fed from every per-kind buffer that is later expanded (R10). The loop over the per-column buffers of the expanders has no early exit (R7)."),
     not_decided="beat_str slicing, Fraction(snap, len) arithmetic, the ms integration (C10)",
 )
